@@ -200,6 +200,32 @@ class CDMachine(MachineBase):
                                 {"results": sorted(set(results))})
         return "open:" + why
 
+    def op_cd_bystanders(self, op):
+        """other Compose objects live in the same process (a tool comparing composes): each is opened and all four of its
+        documents are read; nothing is judged here - the object under test must keep what it loaded"""
+        import productmd.compose
+        keep = getattr(self, "_bystanders", None)
+        if keep is None:
+            keep = self._bystanders = []
+        n_ok = 0
+        for i in range(op.get("n", 1)):
+            try:
+                c = productmd.compose.Compose(op.get("path", "/sim/c"))
+            except Exception as e:
+                if isinstance(e, HarnessError):
+                    raise
+                continue
+            keep.append(c)
+            for attr in ("info", "images", "rpms", "modules"):
+                try:
+                    getattr(c, attr)
+                    n_ok += 1
+                except Exception as e:
+                    if isinstance(e, HarnessError):
+                        raise
+        CTX.probe("c20.other_compose_objects_read_in_between")
+        return "bystanders:%d" % n_ok
+
     def _simpath(self, p):
         """a path as the Compose object spells it -> the normalised path under the virtual root"""
         return self.canon(p)
